@@ -54,7 +54,12 @@ type httpConn struct {
 	// HalfClose: the client ends its sending side (TCP half-close) right after the last
 	// byte of its last request and then reads the outstanding replies
 	HalfClose bool      `json:"half_close,omitempty"`
-	Reqs      []httpReq `json:"reqs"`
+	// Ahead (lock-step only): every write of a request also carries the first Ahead bytes
+	// of the next request - the client then waits for the reply before it sends the rest
+	// (a pipelining client whose stream is segmented by the network; seed C15-r5-1: a reply
+	// held back while unanswered client bytes are buffered)
+	Ahead int       `json:"ahead,omitempty"`
+	Reqs  []httpReq `json:"reqs"`
 }
 
 type httpCase struct {
@@ -321,14 +326,21 @@ func (e *labEnv) runHTTPConn(hc httpConn, epoch, ci int) *httpClientResult {
 		}
 		return res
 	}
-	off := 0
+	stream := bytes.Join(wires, nil)
+	pos, end := 0, 0
 	for ri, q := range hc.Reqs {
-		w := wires[ri]
-		if err := writeCut(c, w, hc.Cut-off); err != nil {
-			res.err = &timeoutErr{fmt.Sprintf("client could not write request %d: %v", ri, err)}
-			return res
+		end += len(wires[ri])
+		upto := end
+		if hc.Ahead > 0 && ri < len(hc.Reqs)-1 {
+			upto = end + minInt(hc.Ahead, len(wires[ri+1])-1)
 		}
-		off += len(w)
+		if upto > pos {
+			if err := writeCut(c, stream[pos:upto], hc.Cut-pos); err != nil {
+				res.err = &timeoutErr{fmt.Sprintf("client could not write request %d: %v", ri, err)}
+				return res
+			}
+			pos = upto
+		}
 		if hc.HalfClose && ri == len(hc.Reqs)-1 {
 			c.(*net.TCPConn).CloseWrite()
 		}
@@ -688,6 +700,9 @@ func genHTTPConn(t *rapid.T) httpConn {
 		hc.Cut = 0
 	}
 	hc.HalfClose = rapid.IntRange(0, 2).Draw(t, "half-close") == 0
+	if !hc.Pipelined && n > 1 && rapid.IntRange(0, 2).Draw(t, "ahead") == 0 {
+		hc.Ahead = rapid.SampledFrom([]int{1, 2, 3, 4, 16, 40, 200, 5000}).Draw(t, "ahead-bytes")
+	}
 	return hc
 }
 
@@ -732,7 +747,7 @@ func (c httpCase) label() string {
 	return fmt.Sprintf("http/%s/clients=%d", mode, len(c.Conns))
 }
 
-const httpRule = "HTTP: 1..3 concurrent client connections, each drawn onto one of three http-proxy ports (own director whose host has a port / two services on two ports sharing ONE director whose host has no port, backends at 127.0.0.2:<same port>, so successive connections alternate between the shared director's ports in drawn order), each 1..4 requests (11 methods, origin-form targets with pct-encoding and queries, 0..10 headers with repeated and differently-cased names, Host naming the decoy, bodies 0..64 KiB as Content-Length or chunked, body content random / text / HTTP look-alike), lock-step or pipelined, one cut of the client stream (none, in the first head, around a request boundary, anywhere), the client half-closing after its last request byte (1 in 3); backend replies (15 status codes, 0..6 headers, bodies 0..64 KiB as Content-Length or chunked) written in 1..5 pieces; oracle: backend's parsed view == sent, client's parsed view == backend's script, events attributed to the client's address, decoy untouched; non-trivial = a request with a body or >=2 requests on one connection"
+const httpRule = "HTTP: 1..3 concurrent client connections, each drawn onto one of three http-proxy ports (own director whose host has a port / two services on two ports sharing ONE director whose host has no port, backends at 127.0.0.2:<same port>, so successive connections alternate between the shared director's ports in drawn order), each 1..4 requests (11 methods, origin-form targets with pct-encoding and queries, 0..10 headers with repeated and differently-cased names, Host naming the decoy, bodies 0..64 KiB as Content-Length or chunked, body content random / text / HTTP look-alike), lock-step (1 in 3 with the first 1..5000 bytes of the NEXT request already riding on each request's write, the client waiting for the reply before it sends the rest) or pipelined, one cut of the client stream (none, in the first head, around a request boundary, anywhere), the client half-closing after its last request byte (1 in 3); backend replies (15 status codes, 0..6 headers, bodies 0..64 KiB as Content-Length or chunked) written in 1..5 pieces; oracle: backend's parsed view == sent, client's parsed view == backend's script, events attributed to the client's address, decoy untouched; non-trivial = a request with a body or >=2 requests on one connection"
 
 func TestHTTP(t *testing.T) {
 	r := vlib.Open(prop)
@@ -765,6 +780,9 @@ func TestHTTP(t *testing.T) {
 			}
 			if hc.HalfClose {
 				r.Label("http/conn/client-half-close", 1)
+			}
+			if hc.Ahead > 0 {
+				r.Label("http/conn/next-request-prefix-rides-ahead", 1)
 			}
 			r.Label(fmt.Sprintf("http/conn/director=%s", []string{"host-with-port", "shared-portless/port-a", "shared-portless/port-b"}[hc.Svc%3]), 1)
 			for _, q := range hc.Reqs {
